@@ -22,7 +22,7 @@ RULE = (
     "distinct_nontrivial = distinct (sub-scenario, ploidy, number of SNVs, shuffle order hash | (breaks, n, result) | (threshold bucket, fixed-column pattern, trace hash))"
 )
 FAULT_KEYS = ["shuffle", "long_locus", "policy_first", "policy_last", "policy_adjacent", "policy_tape", "adversarial_choice", "row_permute"]
-PROBE_KEYS = ["impossible_breaks_refused", "saturated_posterior_at_threshold_1", "sweeps_checked", "sweep_over_127", "partitions_checked", "max_breaks", "fixing_checked", "all_fixed", "some_fixed", "none_fixed",
+PROBE_KEYS = ["sweep_over_256", "impossible_breaks_refused", "saturated_posterior_at_threshold_1", "sweeps_checked", "sweep_over_127", "partitions_checked", "max_breaks", "fixing_checked", "all_fixed", "some_fixed", "none_fixed",
               "threshold_near_skip", "fixed_multiallelic"]
 OPTIONAL_PROBES = {"quick": ("threshold_near_skip",), "thorough": ()}
 COMPONENTS = {
@@ -45,7 +45,7 @@ def prepare(tier):
 def gen_config(rng, tier, index=0):
     kind = rng.choice(["long", "long", "sampler", "breaks", "breaks", "fix", "fix"])
     if kind == "long":
-        n = rng.choice([1, 2, 7, 50, 100, 126, 127, 128, 129, 140, 160, 200, rng.randint(1, 200)])
+        n = rng.choice([1, 2, 7, 50, 100, 126, 127, 128, 129, 140, 160, 200, rng.randint(1, 200), 255, 256, 257, 300, 511, 512, 513, 700, rng.randint(200, 1100)])
         return {"kind": "long", "ploidy": rng.choice([1, 2, 3, 4, 6, 8]), "n_base": n, "sweeps": rng.randint(1, 3)}
     if kind == "sampler":
         cfg = wl_assemble.gen_config(rng, tier, "db")
@@ -62,7 +62,7 @@ def gen_config(rng, tier, index=0):
             cfg["initial"] = "random"
         return cfg
     if kind == "breaks":
-        n = rng.choice([1, 2, 3, 5, 10, 50, 127, 128, 200, rng.randint(1, 200)])
+        n = rng.choice([1, 2, 3, 5, 10, 50, 127, 128, 200, rng.randint(1, 200), 255, 256, 257, 300, 700, rng.randint(200, 1100)])
         b = rng.choice([0, n - 1, max(0, n - 2), rng.randint(0, n - 1), rng.randint(0, n - 1), rng.randint(0, n - 1), n, n + rng.choice([1, 2, 5])])
         return {"kind": "breaks", "n": n, "breaks": b, "policy": rng.choice(["tape", "tape", "first", "last", "adjacent"])}
     n_pos = rng.choice([1, 2, 3, 4, 5])
@@ -130,6 +130,8 @@ def run_long(ctx):
             ctx.key("long", pl, n, tuple(visits[:16]))
     if n > 127:
         ctx.counters.inc("sweep_over_127")
+    if n > 256:
+        ctx.counters.inc("sweep_over_256")
 
 
 def check_sweep(ctx, pl, n, visits):
